@@ -33,6 +33,8 @@ LEX_FLOOR = 0.005  # a run below 5 ms is never "slow", whatever the ratio
 ESC_STEP_FACTOR = 6.0  # four more repetitions may not cost 6 x more (2^n: 16 x) ...
 ESC_STEP_FLOOR = 0.002  # ... once a run takes 2 ms (a 300-character literal: ~0.05 ms)
 ESC_NOISE = 0.00005
+GROWTH_MIN = 0.020  # growth-ratio rule: both times at least 20 ms ...
+GROWTH_MAX = 8.0  # ... then t(4n) <= 8 t(n)  (linear 4, n log n < 5, quadratic 16)
 CLEAR_EXCESS = 10.0  # a measurement this far over its limit is not contention
 
 
@@ -58,40 +60,54 @@ def oracle_violated(s1, s2, s3):
     return FACTOR_DEN * (s3 - s2) > FACTOR_NUM * (s2 - s1)
 
 
+COUNTERS = ("parser-calls", "all-python-calls")
+
+
 def eval_family(kind, key, sizes, exact=False):
     """Measure the family at `sizes` (each the double of the one before),
-    smallest first, and apply the oracle to every window of three.  From the
-    third member on, a run is given the oracle's bound as its step cap:
-    exceeding it *is* the violation, so a blow-up is caught at the smallest
-    window that shows it and costs no more than 3.5 x the member before.
-    -> dict(status, sizes/steps/outcomes of what was measured, window)."""
-    steps, outs = [], []
+    smallest first, with two counters - call events inside the three parser
+    files ('parser-calls') and function entries of all Python code running
+    during parse() ('all-python-calls': c_ast constructors, and any library
+    code doing work on the parser's behalf) - and apply the oracle to every
+    window of three, for each counter.  From the third member on, a run is
+    given the oracle's bounds as its caps: exceeding one *is* the violation,
+    so a blow-up is caught at the smallest window that shows it and costs no
+    more than 3.5 x the member before.
+    -> dict(status, sizes/steps/totals/outcomes of what was measured, window,
+    decided_by)."""
+    steps, totals, outs = [], [], []
     runs = 0
-    res = {"kind": kind, "key": key, "status": "linear", "window": None}
+    res = {"kind": kind, "key": key, "status": "linear", "window": None, "decided_by": None}
     for i, size in enumerate(sizes):
         text = family_text(kind, key, size)
         if i < 2:
-            o, s = F.measure(text, cap=STEP_CAP)
+            o, s, t = F.measure_both(text, cap=STEP_CAP, cap_total=2 * STEP_CAP)
             runs += 1
             if i == 0 and o == "ok":
-                # the measure must be a function of the text: once more - for
-                # the single-construct families with the reference observer
-                # (sys.setprofile), which must see the same number of calls
+                # both counters must be functions of the text: once more; for
+                # the single-construct families the reference observer
+                # (sys.setprofile) must also see the same number of parser calls
                 runs += 1
-                ref = "setprofile" if kind != "pair" else None
-                if F.measure(text, cap=STEP_CAP, method=ref) != (o, s):
+                if F.measure_both(text, cap=STEP_CAP, cap_total=2 * STEP_CAP) != (o, s, t):
                     res["status"] = "nondeterministic"
+                if kind != "pair":
+                    runs += 1
+                    if F.measure(text, cap=STEP_CAP, method="setprofile") != (o, s):
+                        res["status"] = "nondeterministic"
         else:
-            s1, s2 = steps[-2], steps[-1]
-            bound = s2 + (FACTOR_NUM * (s2 - s1)) // FACTOR_DEN
-            o, s = F.measure(text, cap=bound)
+            b1 = steps[-1] + (FACTOR_NUM * (steps[-1] - steps[-2])) // FACTOR_DEN
+            b2 = totals[-1] + (FACTOR_NUM * (totals[-1] - totals[-2])) // FACTOR_DEN
+            o, s, t = F.measure_both(text, cap=b1, cap_total=b2)
             runs += 1
-            if o == "cap" and exact:
-                o, s = F.measure(text, cap=REPORT_CAP)
-                runs += 1
-                if o == "ok":
-                    o = "ok>bound"
+            if o == "cap":
+                res["decided_by"] = COUNTERS[0] if s > b1 else COUNTERS[1]
+                if exact:
+                    o, s, t = F.measure_both(text, cap=REPORT_CAP, cap_total=REPORT_CAP)
+                    runs += 1
+                    if o == "ok":
+                        o = "ok>bound"
         steps.append(s)
+        totals.append(t)
         outs.append(o if o in ("ok", "cap", "rec", "ok>bound") else o[:90])
         if res["status"] == "nondeterministic":
             break
@@ -111,28 +127,41 @@ def eval_family(kind, key, sizes, exact=False):
         if i >= 1 and not steps[-2] < steps[-1]:
             res["status"] = "flat"
             break
-        if i >= 2 and oracle_violated(steps[-3], steps[-2], steps[-1]):
-            res["status"] = "superlinear"
-            res["window"] = i - 2
-            break
+        if i >= 2:
+            for name, ser in zip(COUNTERS, (steps, totals)):
+                if oracle_violated(ser[-3], ser[-2], ser[-1]):
+                    res["status"] = "superlinear"
+                    res["window"] = i - 2
+                    res["decided_by"] = name
+                    break
+            if res["status"] == "superlinear":
+                break
     res["sizes"] = list(sizes[: len(steps)])
     res["steps"] = steps
+    res["totals"] = totals
     res["outcomes"] = outs
     res["runs"] = runs
     res["accepted"] = sum(1 for o in outs if o in ("ok", "ok>bound"))
     return res
 
 
-def origin_functions(kind, key, sizes3):
-    """Which function is the blow-up's origin?  A function whose *incoming*
-    call count stays within the oracle while the calls it *makes* do not (a
-    loop or scan whose length grows with the input) - e.g. the declarator-name
-    lookahead.  Exponential re-parsing has no such function (everything below
-    the re-parse point is entered super-linearly often) -> []."""
+def origin_functions(kind, key, sizes3, decided_by=None):
+    """Which function is the blow-up's origin?  A parser function whose
+    *incoming* call count stays within the oracle while the work it causes does
+    not: the calls it makes itself (a loop or scan whose length grows with the
+    input, e.g. a declarator-name lookahead) or - when only the all-python
+    counter fired - the calls made by library code running directly on its
+    behalf (e.g. a deep copy).  Exponential re-parsing has no such function
+    (everything below the re-parse point is entered super-linearly often) ->
+    []."""
     per = []
     for size in sizes3:
         e = {}
-        o, _ = F.measure(family_text(kind, key, size), cap=REPORT_CAP, edges=e)
+        text = family_text(kind, key, size)
+        if decided_by == COUNTERS[1]:
+            o = F.foreign_attribution(text, e, cap=REPORT_CAP)
+        else:
+            o, _ = F.measure(text, cap=REPORT_CAP, edges=e)
         if o != "ok":
             return []
         per.append(e)
@@ -161,7 +190,7 @@ def _work(task):
             r["funcs"] = sorted(funcs)
         if r["status"] == "superlinear" and want_origin:
             w = r["window"]
-            r["origin"] = origin_functions(kind, key, r["sizes"][w : w + 3])
+            r["origin"] = origin_functions(kind, key, r["sizes"][w : w + 3], r["decided_by"])
         out.append(r)
     return out
 
@@ -169,6 +198,55 @@ def _work(task):
 # ---------------------------------------------------------------------------
 # lexer families (the clock, wide margins)
 # ---------------------------------------------------------------------------
+def growth_violation(rows):
+    """rows = [[n, len, seconds, ...], ...] measured so far, sizes ascending.
+    The last member against the one a quarter of its size: when both took at
+    least 20 ms (clear of timer noise and fixed costs), four times the input
+    may cost at most 8 times as much - quadratic growth (16 x) is caught
+    without waiting for the absolute limit."""
+    n, _, t = rows[-1][:3]
+    for m, _, tm in (r[:3] for r in rows[:-1]):
+        if m * 4 == n and tm is not None and tm >= GROWTH_MIN and t >= GROWTH_MIN and t > GROWTH_MAX * tm:
+            return (f"n={n}: {t:.4f} s is {t / tm:.1f} x the {tm:.4f} s at n={m} "
+                    f"(limit {GROWTH_MAX:g} x for 4 x the input)")
+    return ""
+
+
+def eval_run_family(name, embedded):
+    """A long run that almost matches a longer rule (RUN_FAMILIES), bare on the
+    stand-alone lexer (ending at the first error, as parse() does) or embedded
+    as `int x = <run>;` through parse().  Sizes 2^10, 2^12, 2^14, 2^16."""
+    rows = []
+    t0 = None
+    for n in F.RUN_SIZES:
+        text = F.run_text(name, n, embedded)
+        if embedded:
+            r = F.parse_time(text, repeat=3)
+        else:
+            r = F.lex_time(text, repeat=3, stop_at_error=True)
+        if r[0] == "timeout":
+            rows.append([n, len(text), None, None, None])
+            return {"name": name, "embedded": embedded, "status": "slow", "rows": rows,
+                    "why": f"n={n}: {r[1]} did not finish within {r[2]} s"}
+        t, a, b = r
+        rows.append([n, len(text), round(t, 6), a, b])
+        if t0 is None:
+            t0 = t
+        bound = max(LEX_MARGIN * t0 * n / F.RUN_SIZES[0], LEX_FLOOR)
+        why = ""
+        if t > bound or t >= LEX_ABS:
+            why = (f"n={n}: {t:.4f} s; linear extrapolation from n={F.RUN_SIZES[0]} "
+                   f"({t0:.6f} s) x {LEX_MARGIN:g} = {bound:.4f} s; absolute limit {LEX_ABS} s")
+        why = why or growth_violation(rows)
+        if why:
+            return {"name": name, "embedded": embedded, "status": "slow", "rows": rows, "why": why}
+    return {"name": name, "embedded": embedded, "status": "linear", "rows": rows, "why": ""}
+
+
+def _run_work(task):
+    return [eval_run_family(name, emb) for name, emb in task]
+
+
 def eval_lexer_family(name):
     fn = F.LEXER_FAMILIES[name]
     rows = []
@@ -192,6 +270,10 @@ def eval_lexer_family(name):
             status = "slow"
             why = (f"n={n}: {t:.4f} s; linear extrapolation from n={LEX_SIZES[0]} "
                    f"({t0:.6f} s) x {LEX_MARGIN:g} = {bound:.4f} s; absolute limit {LEX_ABS} s")
+            break
+        g = growth_violation(rows)
+        if g:
+            status, why = "slow", g
             break
     return {"name": name, "status": status, "rows": rows, "why": why}
 
@@ -271,7 +353,7 @@ def _escape_work(task):
 
 
 def _origin_work(task):
-    return [origin_functions(kind, key, sizes3) for kind, key, sizes3 in task]
+    return [origin_functions(kind, key, sizes3, by) for kind, key, sizes3, by in task]
 
 
 def _lex_work(names):
@@ -315,7 +397,7 @@ def plan(tier):
     nest_sizes = _doubling(2, 32 if quick else 64)
     pair_sizes = _doubling(2, 16 if quick else 32)
     fams = []
-    for name in F.REPEATABLE:
+    for name in F.repeat_names():
         fams.append(("rep", name, rep_sizes, True, True))
     for name in F.NESTABLE:
         if F.self_nests(name):
@@ -347,11 +429,13 @@ def plan(tier):
         "lexer_lengths": LEX_SIZES,
         "lexer_margin_x_linear": LEX_MARGIN,
         "lexer_abs_seconds": LEX_ABS,
+        "run_lengths": list(F.RUN_SIZES),
+        "growth_rule": f"t(4n) <= {GROWTH_MAX:g} t(n) when both >= {GROWTH_MIN} s",
         "escape_repetitions": list(F.ESCAPE_SMALL + F.ESCAPE_MEDIUM),
         "escape_step_factor_per_4_repetitions": ESC_STEP_FACTOR,
     }
     info = {
-        "repeatable_constructs": len(F.REPEATABLE),
+        "repeatable_constructs": len(F.repeat_names()),
         "nestable_constructs": len(F.NESTABLE),
         "nestable_self_nesting": sum(1 for n in F.NESTABLE if F.self_nests(n)),
         "ordered_pairs": len(F.NESTABLE) ** 2,
@@ -389,11 +473,13 @@ def signature(r, single_sig):
 
 
 def describe(r):
-    d = {"family": family_name(r["kind"], r["key"]), "sizes": r["sizes"], "steps": r["steps"],
+    d = {"family": family_name(r["kind"], r["key"]), "sizes": r["sizes"],
+         "parser_calls": r["steps"], "all_python_calls": r["totals"],
          "outcomes": r["outcomes"], "status": r["status"]}
     if r["status"] == "superlinear":
         w = r["window"]
-        s = r["steps"][w : w + 3]
+        d["decided_by_counter"] = r["decided_by"]
+        s = (r["totals"] if r["decided_by"] == COUNTERS[1] else r["steps"])[w : w + 3]
         d["violating_window_sizes"] = r["sizes"][w : w + 3]
         d["marginal_costs"] = [s[1] - s[0], s[2] - s[1]]
         d["allowed_last_marginal"] = FACTOR_NUM * (s[1] - s[0]) / FACTOR_DEN
@@ -429,7 +515,8 @@ def run(tier):
             if r["kind"] == "pair" and r["status"] == "superlinear"
             and not (r["key"][0] in single_sig or r["key"][1] in single_sig)]
     todo = [(results[i]["kind"], results[i]["key"],
-             results[i]["sizes"][results[i]["window"]:results[i]["window"] + 3]) for i in need]
+             results[i]["sizes"][results[i]["window"]:results[i]["window"] + 3],
+             results[i]["decided_by"]) for i in need]
     got = []
     for part in core.pmap(_origin_work, core.chunked(todo, 8), chunksize=1):
         got.extend(part)
@@ -441,6 +528,10 @@ def run(tier):
     lex_results = []
     for part in core.pmap(_lex_work, [[n] for n in lex_names], chunksize=1):
         lex_results.extend(part)
+    run_tasks = [(n, emb) for n in F.RUN_FAMILIES for emb in (False, True)]
+    run_res = []
+    for part in core.pmap(_run_work, core.chunked(run_tasks, 4), chunksize=1):
+        run_res.extend(part)
     t_ph.append(time.time())
     esc = F.escape_families(tier)
     esc_res = [None] * len(esc)
@@ -456,6 +547,10 @@ def run(tier):
         if r["status"] != "linear":
             lex_rerun.append(r["name"])
             lex_results[i] = eval_lexer_family(r["name"])
+    for i, r in enumerate(run_res):
+        if r["status"] != "linear":
+            lex_rerun.append(("parse:" if r["embedded"] else "lexer:") + r["name"])
+            run_res[i] = eval_run_family(r["name"], r["embedded"])
     for i, row in enumerate(esc_res):
         if row[1] != "linear":  # always: a single spike under load must never count
             lex_rerun.append(escape_family_name(esc[i]))
@@ -514,6 +609,30 @@ def run(tier):
         if r["status"] != "linear":
             R.fail(f"lexer:{r['name']}", {"lexer": r["name"]}, {"why": r["why"], "rows": r["rows"]})
 
+    # run families: one signature per regex class (hex / bin / dec / oct /
+    # float / ident), whichever member and whichever way (bare or embedded)
+    run_hist = {}
+    run_runs = run_nontrivial = 0
+    run_worst = []
+    run_by_sig = {}
+    for r in run_res:
+        run_hist[r["status"]] = run_hist.get(r["status"], 0) + 1
+        ok_rows = [row for row in r["rows"] if row[2] is not None]
+        run_runs += len(ok_rows)
+        run_nontrivial += sum(1 for row in ok_rows if row[3] or row[4])
+        if len(ok_rows) > 1 and ok_rows[0][2]:
+            run_worst.append((round(max(row[2] / ok_rows[0][2] / (row[0] / ok_rows[0][0])
+                                        for row in ok_rows[1:]), 2),
+                              ("parse:" if r["embedded"] else "lexer:") + r["name"]))
+        if r["status"] != "linear":
+            sig = "lexer-run:" + F.RUN_FAMILIES[r["name"]][0]
+            run_by_sig.setdefault(sig, []).append(("parse:" if r["embedded"] else "lexer:") + r["name"])
+            R.fail(sig, {"run_family": r["name"], "embedded": r["embedded"],
+                         "text_at_16": F.run_text(r["name"], 16, r["embedded"])},
+                   {"family": r["name"], "through": "parse()" if r["embedded"] else "stand-alone lexer",
+                    "why": r["why"], "rows[n,len,seconds,..]": r["rows"]})
+    run_worst.sort(reverse=True)
+
     # escape families: one signature per (char|string, escape kind); an
     # alternation of two kinds is attributed to a kind that is slow on its own
     esc_hist = {}
@@ -551,6 +670,7 @@ def run(tier):
             or decided < 0.95 * len(results) or len(step_values) < len(results)
             or accepted < 0.8 * full or len(funcs) < 100
             or lex_runs < 0.9 * len(LEX_SIZES) * len(lex_names)
+            or len(run_res) < 100 or run_runs < 0.9 * len(F.RUN_SIZES) * len(run_res)
             or len(esc) < 1000 or esc_runs < 0.9 * sum(len(d[4]) for d in esc)
             or esc_nontrivial < 0.9 * esc_runs):
         R.fail("vacuous", {"families": len(results), "decided": decided, "accepted": accepted,
@@ -560,11 +680,23 @@ def run(tier):
 
     ratios.sort(reverse=True)
     lex_worst.sort(reverse=True)
-    R.set("states", len(results) + len(lex_results) + len(esc))
-    R.set("transitions", members + lex_runs + esc_runs)
-    R.set("traces_validated_against_impl", accepted + lex_runs + esc_runs)
-    R.set("evaluations", members + lex_runs + esc_runs)
-    R.set("distinct_nontrivial", nontrivial + lex_nontrivial + esc_nontrivial)
+    R.set("states", len(results) + len(lex_results) + len(esc) + len(run_res))
+    R.set("transitions", members + lex_runs + esc_runs + run_runs)
+    R.set("traces_validated_against_impl", accepted + lex_runs + esc_runs + run_runs)
+    R.set("evaluations", members + lex_runs + esc_runs + run_runs)
+    R.set("distinct_nontrivial", nontrivial + lex_nontrivial + esc_nontrivial + run_nontrivial)
+    R.set("run_families", {"constructs": len(F.RUN_FAMILIES), "families_bare_and_embedded": len(run_res),
+                           "sizes": list(F.RUN_SIZES), "timings": run_runs,
+                           "classes": sorted({v[0] for v in F.RUN_FAMILIES.values()})})
+    R.set("run_status_histogram", run_hist)
+    R.set("run_slow_by_signature", {k: [len(v), v[:6]] for k, v in sorted(run_by_sig.items())})
+    R.set("largest_run_ratio_vs_linear", run_worst[:10])
+    by_counter = {}
+    for r in results:
+        if r["status"] == "superlinear":
+            by_counter[r["decided_by"]] = by_counter.get(r["decided_by"], 0) + 1
+    R.set("counters", list(COUNTERS))
+    R.set("superlinear_decided_by_counter", by_counter)
     R.set("families", {"repeat": n_rep, "nest": n_nest, "pair": len(pairs), "lexer": len(lex_names),
                        "lexer_escape": len(esc),
                        "lexer_escape_single_kind": sum(1 for d in esc if len(d[0]) == 1)})
@@ -584,7 +716,7 @@ def run(tier):
     R.set("lexer_runs", lex_runs)
     R.set("status_histogram", hist)
     R.set("lexer_status_histogram", lex_hist)
-    R.set("distinct_outcomes", len(hist) + len(lex_hist) + len(esc_hist))
+    R.set("distinct_outcomes", len(hist) + len(lex_hist) + len(esc_hist) + len(run_hist))
     R.set("distinct_step_values", len(step_values))
     R.set("superlinear_single_constructs", single_sig)
     R.set("superlinear_families_by_signature", {k: [len(v), v[:6]] for k, v in sorted(by_sig.items())})
@@ -595,11 +727,14 @@ def run(tier):
     R.set("productions_reached", len([f for f in funcs if f.startswith("_parse_")]))
     R.set("functions_reached", len(funcs))
     R.set("bounds", bounds)
-    R.set("phase_seconds", dict(zip(("families", "origin_analysis", "lexer", "lexer_escape"),
+    R.set("phase_seconds", dict(zip(("families", "origin_analysis", "lexer_and_runs", "lexer_escape"),
                                     (round(b - a, 1) for a, b in zip(t_ph, t_ph[1:])))))
     R.assumptions += [
-        "work = number of Python call events inside c_parser.py, c_lexer.py and ast_transforms.py "
-        "(exactly reproducible; re-measured once per family); loops that make no calls (scope-stack "
+        "work = number of Python call events inside c_parser.py, c_lexer.py and ast_transforms.py, and, "
+        "as a second counter with the same oracle, the function entries of all Python code running during "
+        "parse() (c_ast constructors, library code such as copy.deepcopy working on the parser's behalf; "
+        "the `re` package and the harness excluded); `superlinear_decided_by_counter` says which counter "
+        "decided each bad family (both exactly reproducible; re-measured once per family); loops that make no calls (scope-stack "
         "lookup, _type_modify_decl's chain walk) and the time spent inside `re` are invisible to it - "
         "the latter is covered by the timed lexer families",
         "lexer timings are taken after an untimed warm-up run with malloc told to keep freed memory, "
@@ -627,7 +762,11 @@ def run(tier):
         "linear extrapolation from 2^10 and < 2 s. evaluations = parser runs + lexer sizes timed; "
         "distinct_nontrivial = accepted members of families whose step count strictly grew with the size "
         "parameter (the size really drove the parser) + lexer members that produced at least one token or "
-        "error. Escape families: every escape kind (and every unordered pair of kinds, alternating) x char "
+        "error. Run families: for every constant kind and identifier-like prefix a long run that almost "
+        "matches a longer rule (0x+hex*n, ..+'.', ..+'p', 0b.., digits+'e+', every integer-suffix prefix, "
+        "L*n, u8.., _*n, $*n ...), bare on the lexer and embedded as `int x = <run>;` through parse(), at "
+        "2^10, 2^12, 2^14, 2^16 characters: the 50 x / 2 s rules plus the growth rule t(4n) <= 8 t(n) once "
+        "both are >= 20 ms (also applied to the 2^10..2^14 families). Escape families: every escape kind (and every unordered pair of kinds, alternating) x char "
         "constant / string x prefix x shape (terminated = over-long for a char constant, unterminated at "
         "end of line / of input, bad escape at the end / start / end-unterminated), n = 8..28 repetitions "
         "(step 4), 64, 256, 1024 repetitions, and (single kinds) 4096 / 16384 characters lexed up to the first "
@@ -645,6 +784,14 @@ def replay(rep):
         print("lexer family:", c["lexer"])
         for row in r["rows"]:
             print("  n=%s len=%s seconds=%s tokens=%s errors=%s" % tuple(row))
+        print("verdict:", r["status"], r["why"])
+        return 1 if r["status"] != "linear" else 0
+    if "run_family" in c:
+        r = eval_run_family(c["run_family"], c["embedded"])
+        print("run family:", c["run_family"], "through", "parse()" if c["embedded"] else "the stand-alone lexer")
+        print("member at n=16:", repr(F.run_text(c["run_family"], 16, c["embedded"])))
+        for row in r["rows"]:
+            print("  n=%s len=%s seconds=%s" % tuple(row[:3]))
         print("verdict:", r["status"], r["why"])
         return 1 if r["status"] != "linear" else 0
     if "escape_family" in c:
@@ -666,12 +813,13 @@ def replay(rep):
     print("family:", family_name(kind, key))
     print("member at the smallest size:", family_text(kind, key, r["sizes"][0]))
     print("sizes:", r["sizes"])
-    print("steps:", r["steps"], "outcomes:", r["outcomes"])
+    print("parser calls:", r["steps"], "all python calls:", r["totals"], "outcomes:", r["outcomes"])
     if r["status"] == "superlinear":
         w = r["window"]
-        s = r["steps"][w : w + 3]
+        print("decided by counter:", r["decided_by"])
+        s = (r["totals"] if r["decided_by"] == COUNTERS[1] else r["steps"])[w : w + 3]
         print(f"expected: s({r['sizes'][w + 2]})-s({r['sizes'][w + 1]}) <= 2.5*(s({r['sizes'][w + 1]})"
               f"-s({r['sizes'][w]})) = {2.5 * (s[1] - s[0]):.0f}; observed: {s[2] - s[1]}")
-        print("origin functions:", origin_functions(kind, key, r["sizes"][w : w + 3]))
+        print("origin functions:", origin_functions(kind, key, r["sizes"][w : w + 3], r["decided_by"]))
     print("verdict:", r["status"])
     return 0 if r["status"] in ("linear", "rec") else 1
